@@ -112,6 +112,12 @@ func runMutants(p *Property, tags string, controlsOnly bool) []mutantResult {
 		}
 		c := runRules(p, "quick", tags, overlay)
 		res := mutantResult{ID: m.ID, Verdict: "MISSED", Detail: "no new violation of rule " + m.Rule + " matching " + m.Obl}
+		// if the unmutated tree already violates the expected obligation the witness says nothing
+		for k, st := range base {
+			if (st == StViolation || st == StIncomplete) && strings.HasPrefix(k, m.Rule+"@") && strings.Contains(k, m.Obl) {
+				res = mutantResult{ID: m.ID, Verdict: "SKIPPED", Detail: "the current tree already violates " + strings.SplitN(k, "|", 2)[0]}
+			}
+		}
 		for _, o := range c.Obls {
 			if o.Rule == "load" && o.Status == StIncomplete {
 				res = mutantResult{ID: m.ID, Verdict: "BROKEN", Detail: "mutant does not compile: " + o.Reason}
